@@ -245,9 +245,11 @@ def make_jobs(case, cx, syms_by_path, tier, findings, rec):
                 groups.setdefault(hk, (hyps, []))[1].append((name, ob, g))
                 continue
             gv = vc.ground_version(hyps, g, sk)
+            # (for an existential goal the instances of its negation are part of gv already)
+            gneg = z3.BoolVal(True) if vc.exists_goal_as_hyp(g) is not None else neg
             job = {"case": case.name, "name": name, "kind": ob.kind, "path": ob.path, "expect": "unsat",
                    "info": ob.info, "timeout": timeout,
-                   "ground": vc.to_smt2(gv, neg) if gv is not None else None,
+                   "ground": vc.to_smt2(gv, gneg) if gv is not None else None,
                    "full": vc.to_smt2(hyps, neg), "goal": g.sexpr()[:400], "kf": []}
             for kf in kfs:
                 ns = {k: (v.term if isinstance(v, CV) else v) for k, v in syms.items()}
